@@ -392,7 +392,7 @@ def jobs(tier):
         [{"name": "parse-cli-T6-12-commented-definition", "h": "parse-cli", "params": {"template": "T6", "lens": [12], "flagsets": [1], "commented": True}, "split": 8, "chunk": 25,
           "max_paths": 100000, "must_reach": []}] + \
         [{"name": f"parse-cli-{t}-{'-'.join(map(str, lens))}", "h": "parse-cli", "params": {"template": t, "lens": lens, "flagsets": [1]}, "split": 16, "chunk": 25,
-          "max_paths": 200000, "must_reach": []} for t, lens in ((("T4", [9, 10]), ("T4", [9, 9, 9])) if tier == "quick" else (("T4", [9, 10, 9]), ("T4", [10, 9, 9]), ("T1", [19, 19]), ("T6", [12, 12])))] + \
+          "max_paths": 200000, "must_reach": []} for t, lens in ((("T4", [9, 10]), ("T4", [9, 9, 9])) if tier == "quick" else (("T4", [9, 10, 9]), ("T4", [10, 9, 9]), ("T1", [19]), ("T6", [12, 12])))] + \
         [{"name": f"describe-e2e-P{P}", "h": "describe-e2e", "params": {"P": P}, "split": 8, "chunk": 20, "must_reach": [f"P{P}"]} for P in ((1, 2, 11) if tier == "quick" else (1, 2, 3, 10, 11, 12))]
 
 
